@@ -128,6 +128,151 @@ pub mod spec_rdata_eq {
         rd_eq_shape(Shape { pre: 0, names: 1, suf: 0 }, a, b)
     }
 
+    // ------------------------------------- three-way field test (helper level)
+
+    /// What `helpers::test_n_name_fields` documents (this one is a helper-level
+    /// reference, taken from the function's doc comment): walk `n` name fields
+    /// at the same offsets of both buffers;
+    ///   Some(Some(end)) all fields valid on both sides and pairwise ci-equal,
+    ///   Some(None)      a field is valid on one side only, or valid on both and different,
+    ///   None            a field is invalid on both sides.
+    pub open spec fn tnf(a: Seq<u8>, b: Seq<u8>, off: int, n: nat) -> Option<Option<int>>
+        decreases n
+    {
+        if n == 0 { Some(Some(off)) }
+        else {
+            match (name_at(a, off), name_at(b, off)) {
+                (None, None) => None,
+                (Some(la), Some(lb)) =>
+                    if ci_eq(a.subrange(off, off + la), b.subrange(off, off + lb)) {
+                        tnf(a, b, off + la, (n - 1) as nat)
+                    } else {
+                        Some(None)
+                    },
+                _ => Some(None),
+            }
+        }
+    }
+
+    /// Meaning of the three outcomes in terms of the C19 reference.
+    pub proof fn lemma_tnf(a: Seq<u8>, b: Seq<u8>, off: int, n: nat)
+        requires 0 <= off,
+        ensures
+            match tnf(a, b, off, n) {
+                Some(Some(e)) => names_ci_eq(a, off, b, off, n)
+                    && names_end(a, off, n) == Some(e) && names_end(b, off, n) == Some(e),
+                Some(None) => !names_ci_eq(a, off, b, off, n) && !(a =~= b),
+                None => names_end(a, off, n) is None && names_end(b, off, n) is None,
+            },
+        decreases n
+    {
+        if n > 0 {
+            match (name_at(a, off), name_at(b, off)) {
+                (Some(la), Some(lb)) => {
+                    lemma_name_at_bounds(a, off);
+                    lemma_name_at_bounds(b, off);
+                    if ci_eq(a.subrange(off, off + la), b.subrange(off, off + lb)) {
+                        lemma_ci_eq_len(a.subrange(off, off + la), b.subrange(off, off + lb));
+                        lemma_tnf(a, b, off + la, (n - 1) as nat);
+                    } else if a =~= b {
+                        lemma_ci_eq_refl(a.subrange(off, off + la));
+                    }
+                }
+                _ => {}
+            }
+        }
+    }
+
+    /// Two RDATA that are equal have the same length.
+    pub proof fn lemma_rd_eq_shape_len(sh: Shape, a: Seq<u8>, b: Seq<u8>)
+        requires rd_eq_shape(sh, a, b),
+        ensures a.len() == b.len(),
+    {
+        if wf(sh, a) && wf(sh, b) {
+            lemma_names_ci_eq_end(a, sh.pre, b, sh.pre, sh.names);
+        }
+    }
+
+    /// Names inside a suffix of the buffer are the names of the buffer.
+    pub proof fn lemma_name_at_shift(s: Seq<u8>, p: int, off: int)
+        requires 0 <= p <= s.len(), 0 <= off,
+        ensures name_at(s.skip(p), off) == name_at(s, p + off),
+    {
+        if off <= s.len() - p {
+            assert(s.skip(p).skip(off) =~= s.skip(p + off));
+        }
+    }
+
+    pub proof fn lemma_names_end_shift(s: Seq<u8>, p: int, off: int, n: nat)
+        requires 0 <= p <= s.len(), 0 <= off,
+        ensures names_end(s.skip(p), off, n) == (match names_end(s, p + off, n) { Some(e) => Some(e - p), None => None }),
+        decreases n
+    {
+        if n > 0 {
+            lemma_name_at_shift(s, p, off);
+            if name_at(s, p + off) is Some {
+                lemma_name_at_bounds(s, p + off);
+                lemma_names_end_shift(s, p, off + name_at(s, p + off)->Some_0, (n - 1) as nat);
+            }
+        }
+    }
+
+    pub proof fn lemma_names_ci_eq_shift(a: Seq<u8>, pa: int, oa: int, b: Seq<u8>, pb: int, ob: int, n: nat)
+        requires 0 <= pa <= a.len(), 0 <= oa, 0 <= pb <= b.len(), 0 <= ob,
+        ensures names_ci_eq(a.skip(pa), oa, b.skip(pb), ob, n) == names_ci_eq(a, pa + oa, b, pb + ob, n),
+        decreases n
+    {
+        if n > 0 {
+            lemma_name_at_shift(a, pa, oa);
+            lemma_name_at_shift(b, pb, ob);
+            if name_at(a, pa + oa) is Some && name_at(b, pb + ob) is Some {
+                let la = name_at(a, pa + oa)->Some_0;
+                let lb = name_at(b, pb + ob)->Some_0;
+                lemma_name_at_bounds(a, pa + oa);
+                lemma_name_at_bounds(b, pb + ob);
+                assert(a.skip(pa).subrange(oa, oa + la) =~= a.subrange(pa + oa, pa + oa + la));
+                assert(b.skip(pb).subrange(ob, ob + lb) =~= b.subrange(pb + ob, pb + ob + lb));
+                lemma_names_ci_eq_shift(a, pa, oa + la, b, pb, ob + lb, (n - 1) as nat);
+            }
+        }
+    }
+
+    /// RDATA made of `p` fixed octets and one name (MX, SRV): equality is
+    /// equality of the fixed part and single-name equality of the rest.
+    pub proof fn lemma_prefix_then_name(p: int, a: Seq<u8>, b: Seq<u8>)
+        requires 0 <= p <= a.len(), p <= b.len(),
+        ensures
+            rd_eq_shape(Shape { pre: p, names: 1, suf: 0 }, a, b)
+                == (a.subrange(0, p) =~= b.subrange(0, p) && name_rd_eq(a.skip(p), b.skip(p))),
+    {
+        let sh = Shape { pre: p, names: 1, suf: 0 };
+        let s0 = Shape { pre: 0, names: 1, suf: 0 };
+        lemma_names_end_shift(a, p, 0, 1);
+        lemma_names_end_shift(b, p, 0, 1);
+        lemma_names_ci_eq_shift(a, p, 0, b, p, 0, 1);
+        assert(wf(sh, a) == wf(s0, a.skip(p)));
+        assert(wf(sh, b) == wf(s0, b.skip(p)));
+        if wf(sh, a) && wf(sh, b) {
+            assert(a.skip(p).subrange(0, 0) =~= b.skip(p).subrange(0, 0));
+            assert(a.skip(a.len() - 0) =~= b.skip(b.len() - 0));
+            assert(a.skip(p).skip(a.skip(p).len() - 0) =~= b.skip(p).skip(b.skip(p).len() - 0));
+        } else {
+            if a.subrange(0, p) =~= b.subrange(0, p) && a.skip(p) =~= b.skip(p) {
+                assert(a =~= a.subrange(0, p) + a.skip(p));
+                assert(b =~= b.subrange(0, p) + b.skip(p));
+            }
+        }
+    }
+
+    /// Well-formed RDATA holds its fixed part and at least one octet per name.
+    pub proof fn lemma_wf_min_len(sh: Shape, a: Seq<u8>)
+        requires wf(sh, a), sh.pre >= 0, sh.names >= 1,
+        ensures a.len() >= sh.pre + 1 + sh.suf,
+    {
+        lemma_name_at_bounds(a, sh.pre);
+        lemma_names_end_bounds(a, sh.pre + name_at(a, sh.pre)->Some_0, (sh.names - 1) as nat);
+    }
+
     // ------------------------------------------------ RDATA set (RRset) model
 
     /// Position of the first member equal to `x`, if any.
